@@ -11,6 +11,7 @@ type ConcProgram struct {
 	Source        string // package gen
 	Entry         string
 	Deterministic bool // the Go result does not depend on the schedule
+	Boundary      bool // outside the subset of the pinned translator: rejecting it is fine, accepting it means translating it faithfully
 }
 
 // ConcTemplates instantiates every template with seeded parameters.
@@ -305,5 +306,173 @@ func entry() uint64 {
 	return r
 }
 `)
+	ps[len(ps)-1].Boundary = true
+	bnd := func(key string, det bool, src string) {
+		ps = append(ps, ConcProgram{Key: key, Source: src, Entry: "entry", Deterministic: det, Boundary: true})
+	}
+	// a := variable re-assigned after a goroutine captured it (the goroutine reads it only after the assignment)
+	v1, v2 := k(1, 9), k(10, 9)
+	bnd("b-reassign-captured", true, hdr+fmt.Sprintf(`func entry() uint64 {
+	mu := new(sync.Mutex)
+	wg := new(sync.WaitGroup)
+	limit := uint64(%d)
+	var got uint64
+	wg.Add(1)
+	mu.Lock()
+	go func() {
+		mu.Lock()
+		got = limit
+		mu.Unlock()
+		wg.Done()
+	}()
+	limit = %d
+	mu.Unlock()
+	wg.Wait()
+	return got
+}
+`, v1, v2))
+	// parameter re-assigned before a goroutine reads it
+	bnd("b-reassign-param", true, hdr+fmt.Sprintf(`func work(x uint64) uint64 {
+	wg := new(sync.WaitGroup)
+	var got uint64
+	x = x + %d
+	wg.Add(1)
+	go func() {
+		got = x
+		wg.Done()
+	}()
+	wg.Wait()
+	return got
+}
+
+func entry() uint64 {
+	return work(%d)
+}
+`, v1, v2))
+	// deferred unlock: the result must be read inside the critical section
+	bnd("b-defer-unlock", true, hdr+`type Ctr struct {
+	mu *sync.Mutex
+	n  uint64
+}
+
+func (c *Ctr) incr() uint64 {
+	c.mu.Lock()
+	defer c.mu.Unlock()
+	c.n = c.n + 1
+	return c.n
+}
+
+func entry() uint64 {
+	c := &Ctr{mu: new(sync.Mutex), n: 0}
+	wg := new(sync.WaitGroup)
+	var a uint64
+	var b uint64
+	wg.Add(2)
+	go func() {
+		a = c.incr()
+		wg.Done()
+	}()
+	go func() {
+		b = c.incr()
+		wg.Done()
+	}()
+	wg.Wait()
+	return a + b
+}
+`)
+	// deferred unlock guarding a plain cell
+	bnd("b-defer-unlock-cell", true, hdr+`func bump(mu *sync.Mutex, p *uint64) uint64 {
+	mu.Lock()
+	defer mu.Unlock()
+	*p = *p + 1
+	return *p
+}
+
+func entry() uint64 {
+	mu := new(sync.Mutex)
+	p := new(uint64)
+	wg := new(sync.WaitGroup)
+	var a uint64
+	var b uint64
+	wg.Add(2)
+	go func() {
+		a = bump(mu, p)
+		wg.Done()
+	}()
+	go func() {
+		b = bump(mu, p)
+		wg.Done()
+	}()
+	wg.Wait()
+	return a*a + b*b
+}
+`)
+	// reader/writer lock
+	bnd("b-rwmutex", true, hdr+fmt.Sprintf(`func entry() uint64 {
+	mu := new(sync.RWMutex)
+	x := new(uint64)
+	wg := new(sync.WaitGroup)
+	var a uint64
+	wg.Add(2)
+	go func() {
+		mu.Lock()
+		*x = *x + %d
+		mu.Unlock()
+		wg.Done()
+	}()
+	go func() {
+		mu.RLock()
+		a = *x
+		mu.RUnlock()
+		wg.Done()
+	}()
+	wg.Wait()
+	mu.RLock()
+	r := *x
+	mu.RUnlock()
+	return r + a - a
+}
+`, v1))
+	// two waiters, one Signal each
+	add("cond-signal-each", true, hdr+fmt.Sprintf(`func waiter(m *sync.Mutex, c *sync.Cond, tokens *uint64, sum *uint64, v uint64, wg *sync.WaitGroup) {
+	m.Lock()
+	for *tokens == 0 {
+		c.Wait()
+	}
+	*tokens = *tokens - 1
+	*sum = *sum + v
+	m.Unlock()
+	wg.Done()
+}
+
+func entry() uint64 {
+	m := new(sync.Mutex)
+	c := sync.NewCond(m)
+	tokens := new(uint64)
+	sum := new(uint64)
+	wg := new(sync.WaitGroup)
+	wg.Add(1)
+	go func() {
+		waiter(m, c, tokens, sum, %d, wg)
+	}()
+	wg.Add(1)
+	go func() {
+		waiter(m, c, tokens, sum, %d, wg)
+	}()
+	m.Lock()
+	*tokens = *tokens + 1
+	c.Signal()
+	m.Unlock()
+	m.Lock()
+	*tokens = *tokens + 1
+	c.Signal()
+	m.Unlock()
+	wg.Wait()
+	m.Lock()
+	r := *sum
+	m.Unlock()
+	return r
+}
+`, v1, v2))
 	return ps
 }
